@@ -39,6 +39,17 @@ GENERICS_SELF = sx.generics([sx.gp_lt('a'), sx.gp_ty('T'),
                              sx.gp_const('N', sx.tid('usize'))],
                             [sx.wty(T, [sx.tb_trait(['Tr'])])])
 
+# ... and with `Self` NESTED inside other types, in an inline bound and in the declared where-clause
+_SELF = sx.tid('Self')
+GENERICS_SELF_NESTED = sx.generics(
+    [sx.gp_lt('a'), sx.gp_ty('T'),
+     sx.gp_ty('U', [sx.tb_trait([sx.seg('Wt', ('angle', [sx.gty(sx.tgen('Option', _SELF))]))])]),
+     sx.gp_const('N', sx.tid('usize'))],
+    [sx.wty(T, [sx.tb_trait(['Tr'])]),
+     sx.wty(sx.tgen('Option', sx.tref(_SELF)), [sx.tb_trait(['Tr'])]),
+     sx.wty(sx.tpath(['Tr', 'Assoc'], qself=(_SELF, 1)), [sx.tb_trait(['Tr'])])])
+DECLARED_SELF_NESTED = ['T : Tr', 'Option < & Self > : Tr', '< Self as Tr > : : Assoc : Tr']
+
 TRAIT_PATH = {
     'Clone': 'core clone Clone', 'Copy': 'core marker Copy', 'Debug': 'core fmt Debug',
     'Default': 'core default Default', 'Deref': 'core ops Deref', 'Ord': 'core cmp Ord',
@@ -232,6 +243,10 @@ class BoundGen:
         if self.r.random() < 0.25:
             gen = GENERICS_SELF
             feats.add('inline-Self-bound')
+        declared = DECLARED
+        if self.r.random() < 0.15:
+            gen, declared = GENERICS_SELF_NESTED, DECLARED_SELF_NESTED
+            feats.add('nested-Self-in-generics-and-where')
         if is_enum:
             it = sx.enum('E', [sx.variant('V%d' % i, fs, attrs=va) for i, (va, fs) in enumerate(variants_s)],
                          attrs=tattrs, gen=gen)
@@ -249,7 +264,8 @@ class BoundGen:
             it = kw + sx.a_derive_ex(sx.dx(items, bnd=self.barg(common_lv))) + ' ' + it[len(kw):]
             req = sx.inv_derive(it)
         meta = dict(features=tuple(sorted(feats)), trait=tr, kind=kind, enum=is_enum, top=top, plan=plan,
-                    default_variant=default_variant, type_value=type_value, nvar=nvar, second=second, common=common_lv)
+                    default_variant=default_variant, type_value=type_value, nvar=nvar, second=second, common=common_lv,
+                    declared=declared, this=('E' if is_enum else 'X') + " < ' a , T , U , N >")
         return req, meta
 
 
@@ -317,8 +333,9 @@ def expected_where_second(meta):
     return ts, ps
 
 
-def where_text(tr, kind, form, ts, ps):
+def where_text(tr, kind, form, ts, ps, declared=None):
     """flat tokens of the where-clause of one impl"""
+    declared = DECLARED if declared is None else declared
     p = tpath(tr)
     items = []
     for t in ts:
@@ -333,5 +350,5 @@ def where_text(tr, kind, form, ts, ps):
         else:
             items.append(("for < ' __h > & ' __h %s : %s < Output = %s >" % (t, p, t)) if form
                          else ('%s : %s < Output = %s >' % (t, p, t)))
-    items += DECLARED + ps
+    items += declared + ps
     return 'where ' + ' '.join(i + ' ,' for i in items)
